@@ -136,6 +136,24 @@ impl Stage<'_> {
     }
 }
 
+#[cfg(feature = "verif-hooks")]
+impl<'a> Stage<'a> {
+    /// Verification hook: hands every boxed system of this stage to `f`
+    /// together with its (group, position) coordinates, so that
+    /// self-identifying harness systems can be located without relying on any
+    /// execution path.
+    pub fn verif_visit<'s>(
+        &'s mut self,
+        f: &mut dyn FnMut(usize, usize, &'s mut (dyn for<'x> crate::system::RunNow<'x> + Send + 'a)),
+    ) {
+        for (g, group) in self.groups.iter_mut().enumerate() {
+            for (p, sys) in group.iter_mut().enumerate() {
+                f(g, p, &mut **sys);
+            }
+        }
+    }
+}
+
 #[derive(Default)]
 pub struct StagesBuilder<'a> {
     barrier: usize,
